@@ -1,9 +1,8 @@
-(** The MA constructor (helpers::MA): for 13 of its 15 kinds the dispatched instance returns, at every step of
-    every stream, the kind's from-scratch definition [ma_def] (exact arithmetic).  SMM and Vidya have no
-    method theorem yet and are excluded by [ma_proved]. *)
+(** The MA constructor (helpers::MA): for all 15 kinds the dispatched instance returns, at every step of
+    every stream, the kind's from-scratch definition [ma_def] (exact arithmetic). *)
 From Yata Require Import Base.Prelude Base.Num Base.NumR Core.Window Core.WindowSpec Core.Candle Core.Action Core.Strings
   Spec.Hist Spec.MethodDefs Spec.IndicatorDefs Methods.Basic Methods.Select Indicators.Common
-  Proofs.MethodsCommon Proofs.Windowed Proofs.Windowed2 Proofs.Windowed4 Proofs.Windowed5 Proofs.Windowed6 Proofs.Recursive Proofs.Swma.
+  Proofs.MethodsCommon Proofs.Windowed Proofs.Windowed2 Proofs.Windowed4 Proofs.Windowed5 Proofs.Windowed6 Proofs.Recursive Proofs.Swma Proofs.Vidya Proofs.Smm.
 From Coq Require Import Reals Lra.
 Open Scope Z_scope.
 
@@ -13,7 +12,7 @@ Local Notation R := (@F NumR).
 
 Definition ma_proved (c : ma_cfg) : bool :=
   match c with MAcfg k _ =>
-    match k with KSMA | KWMA | KHMA | KRMA | KEMA | KDMA | KDEMA | KTMA | KTEMA | KWSMA | KSWMA | KTRIMA | KLinReg => true | _ => false end
+    match k with KSMA | KWMA | KHMA | KRMA | KEMA | KDMA | KDEMA | KTMA | KTEMA | KWSMA | KSMM | KSWMA | KTRIMA | KLinReg | KVidya => true end
   end.
 (** the lengths each kind accepts (C10) *)
 Definition ma_len_ok (c : ma_cfg) : Prop :=
@@ -58,8 +57,12 @@ Proof.
     destruct (wsma_correct Hodd n v xs x Hn) as (s0 & E & Ho). rewrite E. cbn [omap].
     eexists; split; [reflexivity|].
     rewrite (steps_lift (MS_WSMA (N := NumR)) (wsma_next (N := NumR))) by (intros; reflexivity). cbn [ma_next fst snd]. exact Ho.
+  - destruct (smm_total_correct n v xs x Hn) as (s0 & E & Ho). rewrite E. cbn [omap]. eexists; split; [reflexivity|].
+    rewrite (steps_lift (MS_SMM (N := NumR)) smm_step_t) by (intros s y; cbn [ma_next]; unfold smm_step_t; destruct (smm_next s y) as [[? ?]| |]; reflexivity).
+    cbn [ma_next]. unfold smm_step_t in Ho at 1. destruct (smm_next (steps smm_step_t s0 xs) x) as [[? ?]| |]; exact Ho.
   - ma_case swma_correct (MS_SWMA (N := NumR)) (swma_next (N := NumR)) v xs x Hn.
   - ma_case trima_correct (MS_TRIMA (N := NumR)) (trima_next (N := NumR)) v xs x Hn.
   - ma_case linreg_correct (MS_LinReg (N := NumR)) (linreg_next (N := NumR)) v xs x Hn.
+  - ma_case vidya_correct (MS_Vidya (N := NumR)) (vidya_next (N := NumR)) v xs x Hn.
 Qed.
 End MA.
